@@ -163,8 +163,8 @@ def check(ctx):
         rp = A2.run(f"{GS}.{m}", cls_ctx=GS)
         want = A2.entry(rp, f"self.predictors_[self.best_idx_].{m}(X)")
         ctx.ob("R09.3", rp.func, None, rp.ret is want, f"{m} delegates to predictors_[best_idx_].{m}(X)", construct=f"{m} delegation")
-    _generator(ctx)
-    basis(ctx)
+    ctx.guard(_generator, ctx)
+    ctx.guard(basis, ctx)
 
 
 def _generator(ctx):
